@@ -49,7 +49,7 @@ def run(rep, ctx):
 
 
 # ------------------------------------------------------------------------------------------------
-def r1_same_quantity(rep, ctx):
+def r1_same_quantity(rep, ctx, RID1="C05.R1"):
     m = ctx.model
     fn = m.method("UnitDatabase", "_DoOperationWithSameQuantity")
     cfg = CFG(fn.node)
@@ -103,6 +103,10 @@ def r1_same_quantity(rep, ctx):
             out.add(x[1] if x[0] == "param" else None)
         return out
     sides_ok = {frozenset(side(l)), frozenset(side(r))} == {frozenset({1}), frozenset({2})}
+    def order_insensitive(t):
+        return all(a[0] == "call" and a[1] in (("name", "set"), ("name", "frozenset"), ("name", "sorted"), ("name", "dict"), ("name", "Counter")) for a in alternatives(t))
+    rep.check(order_insensitive(l) and order_insensitive(r), RID1, "same-quantity:order-insensitive", "the composing units are compared as sets: the order in which factors were multiplied does not matter",
+              "the joined composing units are compared as ordered sequences (%s vs %s): m*kg + kg*m is rejected although the dimensions agree" % (show(l, 50), show(r, 50)), node=cfg.ast[nid], fn=fn)
     rep.check(sides_ok, "C05.R1", "same-quantity:both-operands", "the comparison is between the composing units of the left and of the right operand", "the composing-unit comparison does not involve both operands: %s vs %s" % (show(l, 60), show(r, 60)), fn=fn)
     for rn in rets:
         dom = cfg.dominating_edges(rn)
